@@ -69,6 +69,7 @@ def main(argv=None):
         t0 = time.time()
         budget = a.budget if a.budget is not None else BUDGET[a.tier]
         rng = np.random.default_rng(a.seed)
+        np.random.seed(a.seed)  # the NumPy engine's 'rand' variables use the global generator
         res = props.CHECK[a.property](rng, budget)
         res.update(property=a.property, tier=a.tier, seed=a.seed, wall_s=round(time.time() - t0, 2),
                    bound=props.BOUND.get(a.property, res.get("rule", "")))
